@@ -58,6 +58,8 @@ def parse_module(path):
             mod["always"] = True
         elif ln.startswith("//@host"):
             mod["host"] = ln.split(None, 1)[1].strip()
+        elif ln.startswith("//@quickconfigs"):
+            mod["quickconfigs"] = [c.strip() for c in ln.split(None, 1)[1].split(",") if c.strip()]
         elif ln.startswith("//@config"):
             mod["configs"] = [c.strip() for c in ln.split(None, 1)[1].split(",") if c.strip()]
         elif ln.startswith("//@contract"):
